@@ -400,8 +400,147 @@ def proved(run):
             key_order(run, mod, rel)
         except (I.OutOfSubset, I.PyRaise, KeyError) as e:
             run.obligation(f"C02/{mod}.Earley._update/key-order", "out-of-subset", detail=str(e))
-    for f in (unary_graph_edges, result_in_semiring, materialize):
+    for f in (unary_graph_edges, result_in_semiring, materialize, parse_chart_recurrence):
         try:
             f(run)
         except (I.OutOfSubset, KeyError) as e:
             run.obligation(f"C02/{f.__name__}", "out-of-subset", detail=str(e))
+
+
+# ------------------------------------------------------------------ CKY: the chart update is the inside recurrence (soundness + coverage)
+class SymRange:
+    """range(lo, hi) with symbolic bounds: iteration yields ONE index - generic (assumed inside the range) or forced (a given
+    value, with the obligation that it lies inside the range recorded)."""
+
+    def __init__(self, lo, hi):
+        self.lo, self.hi = lo, hi
+
+
+def parse_chart_recurrence(run):
+    n_s, n_c = "C02/cfg.CFG._parse_chart/inside-recurrence", "C02/cfg.CFG._parse_chart/covers-all-splits"
+    fn = source.find(CFG, "CFG._parse_chart")
+    run.function_under_contract("genlm.grammar.cfg.CFG._parse_chart", source.sha(fn))
+    wmul = z3.Function("wmul", W, W, W)
+    wadd = z3.Function("wadd", W, W, W)
+    cval = z3.Function("chart_value", z3.IntSort(), z3.IntSort(), z3.IntSort(), W)
+    xs = S.BaseSeq("xs")
+    N = xs.L
+
+    def execute(path, forced):
+        """forced: None (generic indices) or dict loop-variable -> z3 value to force."""
+        it = I.Interp(path, uf={("W", "Add"): wadd, ("W", "Mult"): wmul})
+        path.assume(N >= 0)
+        if forced is not None:
+            for c in forced.get("__pre__", []):
+                path.assume(c)
+        writes, members = [], []
+
+        class ChartRec:
+            def __pyvc_getitem__(self, interp, k, node):
+                return I.Z(cval(*[I.zexpr(x) for x in k]))
+
+            def __pyvc_setitem__(self, interp, k, v):
+                writes.append((tuple(I.zexpr(x) for x in k), v, list(interp.path.pc)))
+
+        rule = S.RuleVal(I.Z(z3.Const("w_r", W)), S.sym("X"), S.TupleSeq([S.sym("Y"), S.sym("Z")]))
+        trule = S.RuleVal(I.Z(z3.Const("w_t", W)), S.sym("A"), S.TupleSeq([S.sym("a")]))
+
+        class Terminal:
+            def __pyvc_getitem__(self, interp, k, node):
+                interp.path.assume(I.zexpr(k) == trule.body.items[0].e)     # terminal[a] lists the rules A -> a
+                return [trule]
+
+        def rng(i2, a, k):
+            a = [I.zexpr(x) for x in a]
+            lo, hi = (z3.IntVal(0), a[0]) if len(a) == 1 else (a[0], a[1])
+            return SymRange(lo, hi)
+
+        names = {}
+
+        def for_hook(i2, st, env):
+            r = i2.eval(st.iter, env)
+            if not isinstance(r, SymRange):
+                # `for r in terminal[xs[i]]` / `for r in binary`: concrete one-element lists
+                for x in i2.iterate(r):
+                    i2.assign(st.target, x, env)
+                    i2.exec_block(st.body, env)
+                return
+            var = ast.unparse(st.target)
+            if forced is not None and var in forced:
+                v = forced[var]
+                members.append((var, z3.And(r.lo <= v, v < r.hi)))
+            else:
+                v = S.fresh(var)
+                i2.path.assume(z3.And(r.lo <= v, v < r.hi))
+            names[var] = v
+            i2.assign(st.target, I.Z(v), env)
+            i2.exec_block(st.body, env)
+
+        for lp in source.loops(fn, (ast.For,)):
+            it.loop_hooks[id(lp)] = for_hook
+        selfobj = Bag(_cnf=(I.Z(z3.Const("nullary", W)), Terminal(), [rule]), R=Bag(chart=I.Native("chart", lambda i2, a, k: ChartRec())), S=S.sym("S0"))
+        fobj = I.FuncObj(fn, I.Env(None, {"range": I.Native("range", rng), "len": I.Native("len", lambda i2, a, k: I.Z(N))}), "CFG._parse_chart")
+        it.call_func(fobj, [selfobj, xs], {})
+        return dict(writes=writes, members=members, names=dict(names), rule=rule, trule=trule)
+
+    # ---- soundness: every write is one term of the inside recurrence over strictly shorter spans
+    try:
+        res = I.explore(lambda p: execute(p, None))
+    except (I.OutOfSubset, I.PyRaise) as e:
+        run.obligation(n_s, "out-of-subset", detail=str(e))
+        return
+    ok, why, kinds = True, "", set()
+    X, Y, Z_ = (S.sym(n).e for n in ("X", "Y", "Z"))
+    for path, r in res:
+        for key, v, pc in r["writes"]:
+            i_, sym_, k_ = key
+            old = cval(i_, sym_, k_)
+            ve = I.zexpr(v)
+            # which kind of update is it?
+            cands = []
+            j = r["names"].get("j")
+            if j is not None:
+                cands.append(("binary", z3.And(sym_ == X, 0 <= i_, i_ < j, j < k_, k_ <= N,
+                                               ve == wadd(old, wmul(wmul(r["rule"].w.e, cval(i_, Y, j)), cval(j, Z_, k_))))))
+            cands.append(("preterminal", z3.And(sym_ == r["trule"].head.e, 0 <= i_, k_ == i_ + 1, k_ <= N, xs.elem(i_) == r["trule"].body.items[0].e,
+                                                ve == wadd(old, r["trule"].w.e))))
+            cands.append(("nullary", z3.And(sym_ == S.sym("S0").e, 0 <= i_, i_ <= N, k_ == i_, ve == wadd(old, z3.Const("nullary", W)))))
+            hit = [nm for nm, g in cands if smt.prove(pc, g)["verdict"] == "proved"]
+            if not hit:
+                ok, why = False, f"a chart update is not a term of the inside recurrence: key={key}, value={z3.simplify(ve)}"
+            kinds.update(hit)
+    if ok and kinds == {"binary", "preterminal", "nullary"}:
+        run.obligation(n_s, "proved", role="auxiliary", backend="pyvc+z3", detail="every write is c[i,X,k] += w*c[i,Y,j]*c[j,Z,k] with 0<=i<j<k<=N, or c[i,A,i+1] += w for A -> xs[i], or c[i,S,i] += nullary")
+    else:
+        run.obligation(n_s, "refuted" if not ok else "out-of-subset", role="auxiliary", detail=why or f"update kinds seen: {sorted(kinds)}",
+                       replay=dict(replayed=False, why=why), signature="_parse_chart:recurrence")
+    # ---- coverage: an arbitrary split 0 <= i0 < j0 < k0 <= N is visited by the binary loop nest
+    i0, j0, k0 = z3.Ints("i0 j0 k0")
+    pre = [0 <= i0, i0 < j0, j0 < k0, k0 <= N]
+    try:
+        res2 = I.explore(lambda p: execute(p, {"span": k0 - i0, "i": i0, "j": j0, "__pre__": pre}))
+    except (I.OutOfSubset, I.PyRaise) as e:
+        run.obligation(n_c, "out-of-subset", detail=str(e))
+        return
+    good = True
+    seen_binary = False
+    for path, r in res2:
+        for var, cond in r["members"]:
+            if var in ("span", "j") or var == "i":
+                q = smt.prove(pre, cond)
+                if q["verdict"] != "proved" and var in ("span", "j"):
+                    good = False
+        for key, v, pc in r["writes"]:
+            if smt.prove(pre + [c for c in pc], z3.And(key[0] == i0, key[2] == k0))["verdict"] == "proved" and "j" in r["names"]:
+                seen_binary = True
+    # the `i` loop occurs three times (nullary, preterminal, binary); only the binary nest's membership matters: re-check precisely
+    good_i = False
+    for path, r in res2:
+        conds = [c for v_, c in r["members"] if v_ == "i"]
+        if conds and smt.prove(pre, conds[-1])["verdict"] == "proved":
+            good_i = True
+    if good and good_i and seen_binary:
+        run.obligation(n_c, "proved", role="auxiliary", backend="pyvc+z3", detail="for all 0 <= i < j < k <= N: span = k-i, i and j lie inside the loop ranges, and the update for (i, j, k) is executed")
+    else:
+        run.obligation(n_c, "refuted", role="auxiliary", detail=f"some split (i, j, k) is never visited (span/j ranges ok: {good}, i range ok: {good_i}, update reached: {seen_binary})",
+                       replay=dict(replayed=False), signature="_parse_chart:coverage")
